@@ -644,23 +644,12 @@ func (self Reflect) WriteFieldWithFieldName(fieldName string, m meta.Leafable, p
 			return fmt.Errorf("cannot convert bits value to fieldvalue '%v'. Please use 'int' or '[]string' for bits field definition", fieldVal.Kind())
 		}
 	default:
-		value := reflect.ValueOf(v.Value())
-		switch {
-		case fieldVal.Type() == value.Type():
-			// same type
-			fieldVal.Set(value)
-		case fieldVal.CanConvert(value.Type()):
-			// convertible
-			fieldVal.Set(value.Convert(fieldVal.Type()))
-		case value.Kind() == reflect.Slice && fieldVal.Kind() == reflect.Slice && value.Type().Elem().ConvertibleTo(fieldVal.Type().Elem()):
-			// slice with convertible values
-			fieldVal.Set(reflect.MakeSlice(fieldVal.Type(), value.Len(), value.Len()))
-			for i := 0; i < value.Len(); i++ {
-				fieldVal.Index(i).Set(value.Index(i).Convert(fieldVal.Type().Elem()))
-			}
-		default:
-			return fmt.Errorf("cannot convert value of '%v' to fieldvalue '%v'", value.Type(), fieldVal.Type())
+		// same type, or a type the value converts to without loss (numbers, slices of them)
+		value, err := convertExact(reflect.ValueOf(v.Value()), fieldVal.Type())
+		if err != nil {
+			return fmt.Errorf("%s - %w", m.Ident(), err)
 		}
+		fieldVal.Set(value)
 	}
 	return nil
 }
